@@ -6,6 +6,7 @@ import (
 	"fmt"
 	"math"
 	"reflect"
+	"runtime"
 	"runtime/metrics"
 	"strings"
 	"time"
@@ -184,7 +185,7 @@ func zeroSizeItems(chain string) bool {
 }
 
 func (cc *codecCase) offer(c *fw.Ctx, mut string, input []byte) {
-	if zeroSizeItems(cc.node.Chain) && zeroSizeFlood(input) {
+	if (zeroSizeItems(cc.node.Chain) && zeroSizeFlood(input)) || (ref.HasZeroSizeArray(cc.node.Schema) && ref.ZeroSizeFlood(cc.node.Schema, input, 1<<12)) {
 		c.Count("zero_size_item_floods_not_offered", 1)
 		return
 	}
@@ -210,7 +211,7 @@ func mvals(truth int64) []mval {
 	v := func(name string, x int64) mval { return mval{name, ref.AppendLong(nil, x)} }
 	return []mval{
 		v("0", 0), v("1", 1), v("-1", -1), v("2", 2), v("-2", -2), v("true+1", truth+1), v("true-1", truth-1), v("-true", -truth),
-		v("2^21", 1<<21), v("-2^21", -(1<<21)), v("2^22", 1<<22), v("2^31-1", math.MaxInt32), v("2^31", math.MaxInt32+1), v("2^32", 1<<32), v("2^40", 1<<40), v("-2^40", -(1 << 40)), v("2^62", 1<<62), v("maxint64", math.MaxInt64), v("minint64", math.MinInt64), v("minint64+1", math.MinInt64+1),
+		v("2^21", 1<<21), v("-2^21", -(1 << 21)), v("2^22", 1<<22), v("2^31-1", math.MaxInt32), v("2^31", math.MaxInt32+1), v("2^32", 1<<32), v("2^40", 1<<40), v("-2^40", -(1 << 40)), v("2^62", 1<<62), v("maxint64", math.MaxInt64), v("minint64", math.MinInt64), v("minint64+1", math.MinInt64+1),
 		{"10-byte-max-varint", []byte{0xff, 0xff, 0xff, 0xff, 0xff, 0xff, 0xff, 0xff, 0xff, 0x01}},
 		{"11-byte-overflowing-varint", []byte{0xff, 0xff, 0xff, 0xff, 0xff, 0xff, 0xff, 0xff, 0xff, 0xff, 0x01}},
 		{"truncated-varint", []byte{0x80}},
@@ -901,6 +902,135 @@ func scaleTasks(tier string) []task {
 			}})
 		}
 	}
+	// "memory it allocates stays proportional to the size of the input" as a SCALING law, whatever the constant: one
+	// file whose single block (or whose one metadata value) is 1, 4, 16 MiB — each fourfold step in size may cost at
+	// most eightfold in allocation (linear: 4, n·log n: about 4.4, quadratic: 16)
+	ts = append(ts, task{"allocation-scaling", func(c *fw.Ctx) {
+		type blobT struct {
+			B []byte `json:"b"`
+		}
+		rs := ref.Record("blob", ref.F("b", ref.Prim("bytes")))
+		mk := func(n int, where string, codec string) []byte {
+			blob := make([]byte, n)
+			x := uint32(n)
+			for i := range blob {
+				x = x*1664525 + 1013904223
+				blob[i] = byte(x >> 24)
+			}
+			meta := ref.StdMeta(rs.Print(nil), codec, true)
+			var blocks []ref.Block
+			if where == "block" {
+				blocks = []ref.Block{{Count: 1, Payload: ref.Encode(rs, ref.DRecord(ref.DBytes(string(blob))))}}
+			} else {
+				meta = append([]ref.MetaEntry{{Key: "user.blob", Val: blob}}, meta...)
+				blocks = []ref.Block{{Count: 1, Payload: ref.Encode(rs, ref.DRecord(ref.DBytes("x")))}}
+			}
+			data, _ := ref.WriteFile(meta, codec, [16]byte{9, 9, 9}, blocks)
+			return data
+		}
+		for _, where := range []string{"block", "metadata-value"} {
+			for _, codec := range []string{"null", "deflate", "snappy"} {
+				if where != "block" && codec != "null" {
+					continue
+				}
+				for mode := 0; mode < 2; mode++ {
+					var prev uint64
+					prevN := 0
+					for _, n := range []int{1 << 20, 4 << 20, 16 << 20} {
+						data := mk(n, where, codec)
+						c.Eval(1)
+						c.NontrivialN(1)
+						desc := fmt.Sprintf("ReadFile of a %s file whose %s holds %d bytes (reader %s)", codec, where, n, filedrv.ModeName(mode*2))
+						c.BeginBytes("ReadFile|allocation-scaling|"+where, desc, nil)
+						runtime.GC()
+						before := allocated()
+						records := 0
+						var rerr error
+						pan, site := run(func() {
+							rerr = avro.ReadFile(&filedrv.Reader{Data: data, Mode: mode * 2}, blobT{}, func(val unsafe.Pointer, rb *avro.ResourceBank) error {
+								records++
+								rb.Close()
+								return nil
+							})
+						})
+						delta := allocated() - before
+						det := map[string]interface{}{"entry": "ReadFile", "where": where, "codec": codec, "bytes": n, "allocated": delta}
+						if pan != nil {
+							c.Violation("panic:"+fw.PanicClass(pan)+"@"+site+"|ReadFile|allocation-scaling", fmt.Sprintf("panic %v — %s", pan, desc), det)
+							break
+						}
+						if rerr != nil || records != 1 {
+							c.Violation("valid-input-refused|ReadFile|allocation-scaling|"+where, fmt.Sprintf("err=%v records=%d — %s", rerr, records, desc), det)
+							break
+						}
+						if prev > 0 && delta > 8*prev {
+							c.Violation("runaway-allocation|ReadFile|allocation-scaling|"+where, fmt.Sprintf("%d bytes allocated for %d input bytes, %d for %d: a fourfold input costs %.1f times the allocation (linear growth would cost 4) — %s", prev, prevN, delta, n, float64(delta)/float64(prev), desc), det)
+							break
+						}
+						prev, prevN = delta, n
+					}
+				}
+			}
+		}
+		c.Sample(map[string]interface{}{"entry": "ReadFile", "kind": "allocation scaling", "sizes": []int{1 << 20, 4 << 20, 16 << 20}})
+	}})
+	// valid files whose records differ wildly in how much they take from their bank (1, 1100, 3000 pointed-to items
+	// and map entries), read with every bank closed at once so that the next record gets it back: no panic, no
+	// error, every record delivered
+	ts = append(ts, task{"uneven-records-recycled-banks", func(c *fw.Ctx) {
+		type unevenT struct {
+			L []*int64           `json:"l"`
+			M map[string]*string `json:"m"`
+		}
+		rs := ref.Record("uneven", ref.F("l", ref.Array(ref.Union(ref.Prim("null"), ref.Prim("long")))), ref.F("m", ref.Map(ref.Union(ref.Prim("null"), ref.Prim("string")))))
+		rec := func(nl, nm int) ref.Datum {
+			var items, vals []ref.Datum
+			var keys []string
+			for i := 0; i < nl; i++ {
+				items = append(items, ref.DUnion(1, ref.DLong(int64(i))))
+			}
+			for i := 0; i < nm; i++ {
+				keys = append(keys, fmt.Sprintf("k%04d", i))
+				vals = append(vals, ref.DUnion(1, ref.DString("v")))
+			}
+			return ref.DRecord(ref.DArray(items...), ref.DMap(keys, vals))
+		}
+		for si, seq := range [][][2]int{{{1100, 0}, {1, 0}, {1, 0}}, {{0, 3000}, {0, 1}, {0, 1}, {0, 3000}, {2, 2}}, {{1, 1}, {1025, 1025}, {1, 1}, {1024, 1024}, {3, 3}}, {{5000, 0}, {0, 0}, {1, 0}, {5000, 1}}} {
+			for _, perBlock := range []bool{true, false} {
+				var blocks []ref.Block
+				var all []byte
+				for _, r := range seq {
+					e := ref.Encode(rs, rec(r[0], r[1]))
+					if perBlock {
+						blocks = append(blocks, ref.Block{Count: 1, Payload: e})
+					}
+					all = append(all, e...)
+				}
+				if !perBlock {
+					blocks = []ref.Block{{Count: int64(len(seq)), Payload: all}}
+				}
+				data, _ := ref.WriteFile(ref.StdMeta(rs.Print(nil), "null", true), "null", [16]byte{4, 4}, blocks)
+				mut := fmt.Sprintf("valid-file-uneven-records-%d-perblock=%v", si, perBlock)
+				c.NontrivialN(1)
+				guard(c, "ReadFile", "uneven-records", mut, data, func() {
+					n := 0
+					err := avro.ReadFile(&filedrv.Reader{Data: data}, unevenT{}, func(val unsafe.Pointer, rb *avro.ResourceBank) error {
+						v := (*unevenT)(val)
+						if n < len(seq) && (len(v.L) != seq[n][0] || len(v.M) != seq[n][1]) {
+							panic(fmt.Sprintf("record %d delivered with %d items / %d entries, the file holds %d / %d", n, len(v.L), len(v.M), seq[n][0], seq[n][1]))
+						}
+						n++
+						rb.Close()
+						return nil
+					})
+					if err != nil || n != len(seq) {
+						panic(fmt.Sprintf("valid file: err=%v, %d of %d records delivered", err, n, len(seq)))
+					}
+				})
+			}
+		}
+		c.Sample(map[string]interface{}{"entry": "ReadFile", "kind": "uneven records, banks recycled"})
+	}})
 	// deep nesting: d levels of nullable arrays / maps / records around a leaf that is fine, unknown, or not
 	// buildable; construction must be refused or finish — in time linear in the document
 	depths := []int{4, 12, 24, 40, 64}
@@ -990,6 +1120,7 @@ func init() {
 			return "five entry points × three input families, all enumerated. Codec.Read and Codec.Skip of ~50 codecs (every schema of depth<=1 + selected depth-2 shapes; depth<=2 in thorough): every byte string of length<=2 over all 256 values and of length 3..5 (6 thorough) over {00,01,02,03,7f,80,fe,ff}; for every valid encoding (default and fully size-prefixed form) every annotated length/count/block-size/selector replaced by each of 20 values {0,±1,±2,true±1,-true,2^31-1,2^31,2^32,±2^40,2^62,MaxInt64,MinInt64,MinInt64+1,10-byte max varint,11-byte overflowing varint,truncated varint}, every truncation, every byte replaced by {00,7f,80,ff,b^01,b^80} (thorough: all pairs of field mutations). ReadFile: the same three mutation kinds on every framing varint (metadata counts/lengths, block count, block size) and byte of 36 reference-written files, record-level mutations inside blocks, structural cases (codec entry absent/unknown, raw blocks of 0..6 bytes under every codec, 21 malformed embedded schemas, raw strings as file / after magic / after a valid header). SchemaFromString followed by Schema.Codec (decoder construction) and a decode: truncations, token deletions/duplications, character and attribute-value replacements, every type name renamed to every other, token strings up to length 4. Timestamp text: raw strings and single/double character mutations of 6 valid timestamps. Oracle per call: no panic, no worker death, no watchdog expiry, heap allocated (runtime/metrics) <= 1 MiB + 1024×len(input); non-trivial = every distinct mutated input"
 		},
 		Assumptions: []string{
+			"also: one file whose single block or single metadata value holds 1, 4 and 16 MiB — allocation may grow at most eightfold per fourfold input, whatever the constant (linear 4, quadratic 16); valid files whose records take 1 to 5000 items from banks that are closed and handed back at once; zero-size-item floods are recognised by a schema-directed walk (an array of zero-width items at ANY depth of the schema)",
 			"allocation bound 1 MiB + 1024 × input length: legitimate in-memory/wire ratios here are below ~40 (deflate's theoretical 1032:1 cannot be reached by the enumerated inputs)",
 			"'never hangs' is observed by the worker watchdog (no progress for 120 s while executions take microseconds)",
 			"item schemas whose encoding can be empty (array of null) legitimately decode a huge declared count from a few bytes; such inputs are offered but counts above 2^31 on zero-size items are outside the proportionality claim (recorded interpretation)",
